@@ -113,8 +113,41 @@ def report_property(argv):
                 (z.real, b[5]), (z.imag, b[6]), (pw, b[7])]
         for k, (v, t) in enumerate(vals):
             bad = prop_value(float(v), 0 if k < 2 else 1, t)   # voltage fields are fixed-point
-            if bad:
+            if bad and not (k < 2 and abs(v) < 1e-6):
                 return 'SOURCE DATA pulse %s: %s' % (b[0], bad)
+    return current_block_property(m)
+
+
+def current_block_property(m):
+    """CURRENT DATA: every numbered row carries the pulse current; magnitude and phase columns agree with the
+    real and imaginary columns (also for currents far below 1 A: the property covers 1e-30 and up)"""
+    txt = m.currents_as_mininec()
+    rows = 0
+    for l in txt.split('\n'):
+        t = l.split()
+        if len(t) != 5 or not (t[0].isdigit() or t[0] == 'J'):
+            continue
+        try:
+            re_, im_, mag, ph = (float(x) for x in t[1:])
+        except ValueError:
+            continue
+        if t[0].isdigit():
+            rows += 1
+            c = m.current[int(t[0]) - 1]
+            for name, v, tx in (('real', c.real, t[1]), ('imaginary', c.imag, t[2])):
+                if abs(v) >= 1e-30:
+                    b = prop_value(float(v), 1, tx)
+                    if b:
+                        return 'CURRENT DATA pulse %s %s part: %s' % (t[0], name, b)
+        a = math.hypot(re_, im_)
+        if a >= 1e-30:
+            if abs(mag - a) > 2e-6 * a:
+                return 'CURRENT DATA row %s: magnitude %r printed for (%r, %r)' % (t[0], mag, re_, im_)
+            want = math.degrees(math.atan2(im_, re_))
+            if abs(((ph - want + 180) % 360) - 180) > 1e-3:
+                return 'CURRENT DATA row %s: phase %r printed for (%r, %r), i.e. %.5f degrees' % (t[0], ph, re_, im_, want)
+    if rows != len(m.pulses):
+        return 'CURRENT DATA has %d numbered rows for %d pulses' % (rows, len(m.pulses))
     return None
 
 
@@ -126,7 +159,7 @@ def gen_report_argv(rng):
     pulses = rng.sample(range(1, nseg), ns)
     for p in pulses:
         argv.append('--excitation-pulse=%d' % p)
-        mag = rng.choice([0.5, 1.0, 2.0, 0.25, 10.0, 1.5, 100.0, 0.001, 3.0])
+        mag = rng.choice([0.5, 1.0, 2.0, 0.25, 10.0, 1.5, 100.0, 0.001, 3.0, 1e-15, 3e-22, 1e-12])
         ph = rng.choice([0, 0, 30, 90, -45, 180, 12.5])
         v = mag * complex(math.cos(math.radians(ph)), math.sin(math.radians(ph)))
         if ph == 0:
